@@ -352,9 +352,18 @@ package dialer
 //@   ensures calls("markAvailable") + calls("markUnavailable") <= 1
 
 // escalation after persistent proxy failures goes through the forced failure entry point for each of the
-// six listed network types (their contents cannot be pinned across the calls: the callee may modify anything)
+// six listed network types. What the list holds is pinned where the walk starts (across the calls the callee
+// may modify anything): one entry per health key - TCP v4/v6, DNS-UDP v4/v6 (DNS domain, IsDns), data-UDP
+// v4/v6 - so that a shared transport failure reaches every domain.
 //@ func (*Dialer).markUnavailableFromProxyFailure
 //@   anchorsonly
 //@   dyncalls noeffect
 //@   modifies *
-//@   at call ReportUnavailableForced#1 assert 0 <= $idx && $idx < 6
+//@   at call ReportUnavailableForced#1 assert 0 <= $idx && $idx < 6 && a1 == $range[$idx]
+//@   loop 1
+//@     entry len($range) == 6
+//@     entry $range[0].L4Proto == consts.L4ProtoStr_TCP && $range[0].IpVersion == consts.IpVersionStr_4 && $range[1].L4Proto == consts.L4ProtoStr_TCP && $range[1].IpVersion == consts.IpVersionStr_6
+//@     entry $range[2].L4Proto == consts.L4ProtoStr_UDP && $range[2].IpVersion == consts.IpVersionStr_4 && $range[2].UdpHealthDomain == UdpHealthDomainDns && $range[2].IsDns
+//@     entry $range[3].L4Proto == consts.L4ProtoStr_UDP && $range[3].IpVersion == consts.IpVersionStr_6 && $range[3].UdpHealthDomain == UdpHealthDomainDns && $range[3].IsDns
+//@     entry $range[4].L4Proto == consts.L4ProtoStr_UDP && $range[4].IpVersion == consts.IpVersionStr_4 && $range[4].UdpHealthDomain == UdpHealthDomainData && !$range[4].IsDns
+//@     entry $range[5].L4Proto == consts.L4ProtoStr_UDP && $range[5].IpVersion == consts.IpVersionStr_6 && $range[5].UdpHealthDomain == UdpHealthDomainData && !$range[5].IsDns
